@@ -34,4 +34,4 @@ for P in ${PROPS//,/ }; do
   echo "== $NAME $P exit=$rc: $(grep -c '^VIOLATION' "$D/out/$P.log") violation lines; $(grep -m1 'detail:' "$D/out/$P.log" | cut -c1-260)"
   tail -1 "$D/out/$P.log"
 done
-rm -rf "$D"
+[ -n "${KEEP:-}" ] || rm -rf "$D"
